@@ -26,7 +26,7 @@ Proof. reflexivity. Qed.
 Lemma U_entries_loop_S p f cnt bs acc : U_entries_loop p (S f) cnt bs acc =
   if cnt =? 0 then Ok (rev acc, bs)
   else '(e, r) <- U_entry p bs ;; U_entries_loop p f (cnt - 1) r (e :: acc).
-Proof. reflexivity. Qed.
+Proof. rewrite ?rev_alt. reflexivity. Qed.
 
 Lemma U_ack_loop_S p f cnt bs a : U_ack_loop p (S f) cnt bs a =
   if cnt =? 0 then Ok (a, bs)
@@ -62,7 +62,7 @@ Lemma unmarshal_packed_loop_S f bs acc : unmarshal_packed_loop (S f) bs acc =
   | [] => Ok (rev acc)
   | _ => '(e, r) <- U_entry Slice bs ;; unmarshal_packed_loop f r (e :: acc)
   end.
-Proof. reflexivity. Qed.
+Proof. rewrite ?rev_alt. reflexivity. Qed.
 
 Lemma get_chunk_loop_S f cnt bs : get_chunk_loop (S f) cnt bs =
   if cnt =? 0 then Err ENotFound
